@@ -69,6 +69,7 @@ structure Pts (K : Type) where
   space : Space
   shape : List Nat
   rows : List (List K)
+  deriving DecidableEq
 
 /-- column indices of the requested names, in the requested order
     (`out_idxs += rng[slc[var]]` in `Points._compute_slice`); `KeyError` = `none` -/
